@@ -216,6 +216,9 @@ def simp(t):
             return C(same if op == "is" else not same)
         if op in ("is", "isnot", "==", "!=") and C(None) in (a, b):
             o = b if a == C(None) else a
+            if o[0] == "ite":
+                # (None if c else xs) is None: decided branch by branch
+                return simp(("ite", o[1], simp(("cmp", op, o[2], C(None))), simp(("cmp", op, o[3], C(None)))))
             if o[0] in ("list", "tup", "dict", "set", "compr", "cat") or (o[0] == "call" and o[1] in ("list", "set", "dict", "tuple", "frozenset", "sorted", "len", "range")):
                 return C(op in ("isnot", "!="))          # a freshly built container is not None
         if is_const(a) and is_const(b) and op in ("<", "<=", "==", "!="):
@@ -302,6 +305,8 @@ def simp(t):
             return C(bool(x[1]))
         if x[0] == "list":
             return C(len(x[1]) > 0)
+        if x[0] in ("truthy", "cmp", "not", "and", "or"):
+            return x                       # the truth value of a truth value
         return t
     if h == "strcat":
         a, b = t[1], t[2]
@@ -793,6 +798,19 @@ class SymX:
                     return ("list", tuple(("tup", tuple(a[1][i] if a[0] in ("tup", "list") else simp(("idx", a, C(i))) for a in t[2])) for i in range(n)))
         return t
 
+    def _subscript(self, base, i, depth=0):
+        if base[0] == "compr" and base[1] in self.loops:
+            # a table computed position by position from another list: table[k] is the element expression at source[k]
+            L = self.loops[base[1]]
+            if L.ckind == "list" and not L.filters and L.whole and not L.inner and L.elt is not None and not L.enumerated:
+                el, ps = ("elem", L.id), ("pos", L.id)
+                at = simp(("idx", L.source, i))
+                return deep_simp(subst(L.elt, lambda x: at if x == el else (i if x == ps else None)))
+        if base[0] == "ite" and depth < 3 and (C(None) in (base[2], base[3]) or "compr" in (base[2][0], base[3][0])):
+            # (None if c else table)[k]: the subscript of whichever it is
+            return simp(("ite", base[1], self._subscript(base[2], i, depth + 1), self._subscript(base[3], i, depth + 1)))
+        return simp(("idx", base, i))
+
     _PURE_METHODS = frozenset(("get", "items", "keys", "values", "index", "count", "copy", "join", "split", "format", "replace", "strip", "lower", "upper",
                                "startswith", "endswith", "union", "intersection", "difference", "issubset", "issuperset", "isdigit", "find", "rstrip", "lstrip",
                                "random", "randrange", "randint", "choices", "choice", "uniform", "sample", "getrandbits"))
@@ -1149,14 +1167,7 @@ class SymX:
                 stp = ev(e.slice.step) if e.slice.step else C(None)
                 return ("slice", base, lo, hi, stp)
             i = ev(e.slice)
-            if base[0] == "compr" and base[1] in self.loops:
-                # a table computed position by position from another list: table[k] is the element expression at source[k]
-                L = self.loops[base[1]]
-                if L.ckind == "list" and not L.filters and L.whole and not L.inner and L.elt is not None and not L.enumerated:
-                    el, ps = ("elem", L.id), ("pos", L.id)
-                    at = simp(("idx", L.source, i))
-                    return deep_simp(subst(L.elt, lambda x: at if x == el else (i if x == ps else None)))
-            return simp(("idx", base, i))
+            return self._subscript(base, i)
         if isinstance(e, ast.Tuple):
             return ("tup", tuple(ev(x) for x in e.elts))
         if isinstance(e, ast.List):
